@@ -252,6 +252,18 @@ def check(ctx):
             ctx.violation("ee: %s" % why.split(",")[0][:50], {"case": ["ee", [ord(ch) for ch in q]], "observed": ee_impl[i], "why": why})
     for i in ee_bad[:20]:
         ctx.violation("correspondence:expected_errors", {"case": ["ee", [ord(ch) for ch in ee[i]]], "impl": ee_impl[i], "model": ee_model[i]}, found_input=False)
+    # very long reads (long-read technologies): the same quality value tens of thousands of times; oracle only (run-length encoded)
+    rng = ctx.rng
+    longs = [[(43, 65536)], [(73, 70000)], [(rng.choice([35, 43, 53, 63]), rng.choice([65535, 65536, 65537, 131072])), (73, 5)],
+             [(rng.randint(33, 80), rng.randint(20000, 90000)) for _ in range(3)]]
+    for runs in longs:
+        q = "".join(chr(ch) * n for ch, n in runs)
+        out = impl_ee(q)
+        ctx.count(("ee-long", tuple(runs)), True)
+        why = oracle_ee(q, out)
+        if why:
+            ctx.violation("ee: %s" % why.split(",")[0][:50], {"case": ["ee-long", [list(r) for r in runs]], "observed": out, "why": why})
+    dist["ee_long"] = len(longs)
     dist["ee"] = len(ee)
     dist["ee_invalid"] = sum(1 for x in ee_impl if x == "None")
     dist["ee_len_mod4"] = {str(r): sum(1 for q in ee if len(q) % 4 == r) for r in range(4)}
@@ -269,8 +281,8 @@ def check(ctx):
 
 def replay(doc):
     c = doc["replay"]["case"]
-    if c[0] == "ee":
-        q = "".join(chr(x) for x in c[1])
+    if c[0] in ("ee", "ee-long"):
+        q = "".join(chr(x) for x in c[1]) if c[0] == "ee" else "".join(chr(ch) * n for ch, n in c[1])
         out = impl_ee(q)
         why = oracle_ee(q, out)
     else:
